@@ -592,6 +592,11 @@ func CheckStep(st Step) []Obs {
 			}
 			add(propFor("C02"), cls, fmt.Sprintf("%s (result %s) changed untargeted message: %s -> %s", op.Kind, res.Err, rowBrief(r0), rowBrief(r1)),
 				map[string]string{"from": string(r0.State), "to": string(r1.State), "error": res.Err}, id)
+			if op.Kind == KReopen && r0.State == queue.StateLeased && !leaseExpired(r0, now) && (r1.State != queue.StateLeased || r1.LeaseID != r0.LeaseID) {
+				// a lease held by a consumer outlives the process that issued it: opening the
+				// database again (restart, second handle) must not end it
+				add("C03", "live_lease_dropped_on_open", fmt.Sprintf("opening the database again ended the unexpired lease of %s: %s -> %s", id, rowBrief(r0), rowBrief(r1)), nil, id)
+			}
 			switch op.Kind {
 			case KAck, KNack, KExtend, KDead, KAckBatch, KNackBatch, KDeadBatch:
 				// the only messages a settlement may change are those whose current,
